@@ -540,6 +540,7 @@ func checkC24(c *Ctx) string {
 	}
 	c.Floor(r4, len(names), 3, "callers of the Overlay mutators in the loaded program (the matcher sees them in db19)")
 	c.Stats["statements"] = len(execs)
+	checkActionIteration(c, "C24.5 K11 an updating action iterates on a key index", "C24.6 K18 every row read is counted or is the re-read of the row just changed")
 	return "Decided for every method of dbms/query with signature (*Thread, *UpdateTran) int (4 today, found by signature): the result is one local that is initialised once with the constant 0, " +
 		"changed only by increments of 1, and each increment is paired with an UpdateTran.Output/Update/Delete call in the same loop iteration on every normal path in both directions (per-iteration must-analysis, kill at loop-body entry), " +
 		"or a constant k with exactly k row changes outside loops before every return; Update/Delete get their table from Query.Updateable() and, like every Query.Get, are dominated by the edge on which that result is non-empty; " +
